@@ -38,6 +38,8 @@ def sched_rule(rng, locs, schedule=None, simple=False, allow_pattern_cond=True):
             r["condition"] = tmpl({"t": "bindvar", "k": "w", "x": "ruleId"})
         if rng.random() < 0.15:
             r["policies"] = {"serialActions": True}
+        if rng.random() < 0.15:
+            r["id"] = rng.choice(["r", "r1", "r2", "other"])     # an `id` inside the body is data: the rule is known (and, when one-shot, deleted) by the id it is stored under
     return r
 
 
